@@ -85,7 +85,12 @@ def _param_for_arg(a):
     from hugr import tys
     k = a["tya"]
     if k == "Type":
-        return tys.TypeTypeParam(tys.TypeBound.Any)
+        # the definition declares each type parameter with the bound of the argument it is instantiated at (the tightest legal
+        # declaration): definitions with mixed declared bounds exist, and a declared bound is not the bound of the instance
+        try:
+            return tys.TypeTypeParam(build_type(a["ty"]).type_bound())
+        except Exception:  # noqa: BLE001
+            return tys.TypeTypeParam(tys.TypeBound.Any)
     if k == "BoundedNat":
         return tys.BoundedNatParam()
     if k == "String":
@@ -100,7 +105,7 @@ def _param_for_arg(a):
 def typedef_for(extension: str, name: str, args, bspec):
     """A TypeDef registered in an Extension named `extension`, with the given bound specification."""
     from hugr import ext
-    key = (extension, name, len(args), repr(bspec), tuple(a["tya"] for a in args))
+    key = (extension, name, len(args), repr(bspec), tuple(a["tya"] for a in args), json.dumps(args, sort_keys=True))
     if key not in _EXT_CACHE:
         e = ext.Extension(extension, ext.Version(0, 1, 0))
         b = ext.ExplicitBound(_bound(bspec["bound"])) if bspec["b"] == "Explicit" else ext.FromParamsBound(list(bspec["indices"]))
